@@ -109,3 +109,21 @@ def absr(x):
 @spec
 def opt_min(a, b):
     return ite(is_none(a), b, ite(is_none(b), a, ite(some(a) <= some(b), a, b)))
+
+
+# ---------------------------------------------------------------- C08: abstract file system (ghost `fs`)
+
+@spec
+def file_same(a, b, p):
+    """file p is the same in file systems a and b (both absent, or both present with equal content)"""
+    return ((p in a) == (p in b)) and implies(p in a, a[p] == b[p])
+
+
+@spec
+def file_is(a, p, data):
+    return (p in a) and a[p] == data
+
+
+@spec
+def no_temp_left(a, tmps):
+    return forall((q, 'str'), q in tmps, not (q in a))
